@@ -66,20 +66,21 @@ def sweep(ck, L, fname, exp, Zs, macs, st, two_args=True, skip=()):
                          dict(call='%s(%d,%d)' % (fname, ZZ[k], MM[k]) if two_args else '%s(%d)' % (fname, ZZ[k]), config=L.config))
         # the library as the project's own build makes it (meson), inside a host program whose own globals carry the names of the library's
         # internal tables and helpers (build.hostile_host): the tables the calls read are the library's own, so the bits are the same
-        try:
-            L4 = execlib.Lib(L.config, 'meson', env={'LD_PRELOAD': build.hostile_host(L.config)['so']})
-            r4 = L4.call(fname, ZZ, MM) if two_args else L4.call(fname, ZZ)
-            st['calls'] += len(ZZ)
-            st['calls_in_the_project_build_inside_a_hostile_host'] = st.get('calls_in_the_project_build_inside_a_hostile_host', 0) + len(ZZ)
-            bad = np.nonzero((r4.v.view('u8') != r.v.view('u8')) | (r4.status != r.status))[0]
-            for k in bad[:2]:
-                ck.violation('c01:%s:project-build-in-a-host-with-same-named-globals-differs' % fname,
-                             '%s gives %r (status %d) in the meson-built library loaded into a program that defines globals named like the library\'s internal tables, %r (status %d) otherwise' % (
-                                 fname, float(r4.v[k]), int(r4.status[k]), float(r.v[k]), int(r.status[k])),
-                             dict(call='%s(%d,%d)' % (fname, ZZ[k], MM[k]) if two_args else '%s(%d)' % (fname, ZZ[k]), config=L.config, build='meson'))
-        except execlib.ExecCrash as ex:
-            ck.violation('c01:%s:project-build-in-a-host-with-same-named-globals-dies' % fname, '%s kills the process (rc %d) in the meson-built library loaded into a program that defines globals named like the '
-                         'library\'s internals: %s' % (fname, ex.rc, ex.tail[-200:]), dict(function=fname, config=L.config, build='meson'))
+        for pb in build.PROJECT_BUILDS:       # default options / release without assertions / plain char unsigned (execlib.PB_WHAT)
+            try:
+                L4 = execlib.Lib(L.config, pb, env={'LD_PRELOAD': build.hostile_host(L.config)['so']})
+                r4 = L4.call(fname, ZZ, MM) if two_args else L4.call(fname, ZZ)
+                st['calls'] += len(ZZ)
+                st['calls_in_the_project_build_inside_a_hostile_host'] = st.get('calls_in_the_project_build_inside_a_hostile_host', 0) + len(ZZ)
+                bad = np.nonzero((r4.v.view('u8') != r.v.view('u8')) | (r4.status != r.status))[0]
+                for k in bad[:2]:
+                    ck.violation('c01:%s:project-build-in-a-host-with-same-named-globals-differs%s' % (fname, '' if pb == 'meson' else ':' + pb[6:]),
+                                 '%s gives %r (status %d) in the meson-built library loaded into a program that defines globals named like the library\'s internal tables, %r (status %d) otherwise' % (
+                                     fname, float(r4.v[k]), int(r4.status[k]), float(r.v[k]), int(r.status[k])),
+                                 dict(call='%s(%d,%d)' % (fname, ZZ[k], MM[k]) if two_args else '%s(%d)' % (fname, ZZ[k]), config=L.config, build=pb))
+            except execlib.ExecCrash as ex:
+                ck.violation('c01:%s:project-build-in-a-host-with-same-named-globals-dies%s' % (fname, '' if pb == 'meson' else ':' + pb[6:]), '%s kills the process (rc %d) in the meson-built library loaded into a program that defines globals named like the '
+                             'library\'s internals: %s' % (fname, ex.rc, ex.tail[-200:]), dict(function=fname, config=L.config, build=pb))
     ref = np.array([exp.get((int(z), int(m)) if two_args else int(z), np.nan) for z, m in zip(ZZ, MM)])
     has = ~np.isnan(ref) & (ZZ >= 1) & (ZZ <= 120)
     st['calls'] += len(ZZ)
